@@ -223,7 +223,7 @@ def _note(rec: Recorder, case):
     rec.note(key, nontrivial, labels, sample=case)
 
 
-N = {"quick": 250, "thorough": 16000}
+N = {"quick": 1000, "thorough": 16000}
 
 
 def shard_plan(tier):
